@@ -144,14 +144,15 @@ static bool run_list(wcall *calls, int n, const vbuf *full, size_t cap, int form
             snprintf(sig, sizeof sig, "%s:init", sigp); snprintf(what, sizeof what, "binson_writer_init did not give a clean writer"); ok = false;
         }
     }
-    bool failed = false, nullerr = false, terminal = false; size_t stored = 0, counter = 0;
+    bool failed = false, nullerr = false, terminal = false, over_after_null = false; size_t stored = 0, counter = 0;
     for (int i = 0; i < n && ok; i++) {
         wcall *c = &calls[i];
-        if (c->op == W_RAW_NULL) { failed = true; nullerr = true; }
+        if (c->op == W_RAW_NULL) { failed = true; nullerr = true; over_after_null = false; }     /* the refused call sets NULL again */
         for (int k = 0; k < c->npieces; k++) {
             if (!failed && stored + c->piece[k] <= cap && stored + c->piece[k] >= stored) stored += c->piece[k];
             else failed = true;
             counter += c->piece[k];
+            if (nullerr && counter > cap) over_after_null = true;      /* a piece that ends beyond the capacity, written after the refused NULL call */
         }
         if (c->op == W_QUERY) {
             /* queries between writes: nothing may change (writer_verify only where the backing store covers the counter) */
@@ -172,6 +173,9 @@ static bool run_list(wcall *calls, int n, const vbuf *full, size_t cap, int form
             size_t cnt_want = counter + huge + (c->op == W_BYTES_HUGE ? 9 : 0);      /* the counter keeps counting: 9-byte length prefix + the claimed payload */
             if (ok && cnt_now != cnt_want) { snprintf(sig, sizeof sig, "%s:counter:%s", sigp, WNAME[c->op]); snprintf(what, sizeof what, "call %d (%s, length %zu): the counter went from %zu to %zu, the encoded size of the call is %zu", i, WNAME[c->op], huge, counter, cnt_now, cnt_want - counter); ok = false; }
             if (r2 || w->error_flags == BINSON_ERROR_NONE) { snprintf(sig, sizeof sig, "%s:huge-length-accepted:%s", sigp, WNAME[c->op]); snprintf(what, sizeof what, "call %d (%s, length %zu) returned %d with error_flags=%s", i, WNAME[c->op], huge, r2, verr_name((int)w->error_flags)); ok = false; }
+            /* RANGE iff the size exceeds the capacity: the claimed size of a string/bytes value above INT32_MAX exceeds every capacity
+             * used here, whatever other error the call raised first (raw lengths near SIZE_MAX wrap the counter: any error will do) */
+            if (ok && c->op == W_BYTES_HUGE && w->error_flags != BINSON_ERROR_RANGE) { snprintf(sig, sizeof sig, "%s:range-iff:%s", sigp, WNAME[c->op]); snprintf(what, sizeof what, "call %d (%s, length %zu): the counter is %zu, the capacity %zu, but error_flags=%s, not RANGE", i, WNAME[c->op], huge, cnt_now, cap, verr_name((int)w->error_flags)); ok = false; }
             if (ok && stored && memcmp(dst, full->p, stored) != 0) { snprintf(sig, sizeof sig, "%s:prefix-damaged", sigp); snprintf(what, sizeof what, "the stored prefix was damaged by a write with an impossible length"); ok = false; }
             for (size_t k = stored; ok && k < cap; k++) if (dst[k] != 0xA7) { snprintf(sig, sizeof sig, "%s:store-after-failure", sigp); snprintf(what, sizeof what, "byte %zu was modified by a write with an impossible length", k); ok = false; }
             terminal = true;
@@ -184,6 +188,7 @@ static bool run_list(wcall *calls, int n, const vbuf *full, size_t cap, int form
         else if (cnt != counter) { snprintf(sig, sizeof sig, "%s:counter:%s", sigp, WNAME[c->op]); snprintf(what, sizeof what, "after call %d (%s) the counter is %zu, the exact encoded size so far is %zu", i, WNAME[c->op], cnt, counter); ok = false; }
         else if (!failed && w->error_flags != BINSON_ERROR_NONE) { snprintf(sig, sizeof sig, "%s:spurious-error:%s", sigp, verr_name((int)w->error_flags)); snprintf(what, sizeof what, "error_flags=%s although everything fitted", verr_name((int)w->error_flags)); ok = false; }
         else if (failed && w->error_flags == BINSON_ERROR_NONE) { snprintf(sig, sizeof sig, "%s:error-cleared", sigp); snprintf(what, sizeof what, "after the failing call %d the error indicator is NONE", i); ok = false; }
+        else if (over_after_null && w->error_flags != BINSON_ERROR_RANGE) { snprintf(sig, sizeof sig, "%s:range-iff:after-%s", sigp, verr_name((int)w->error_flags)); snprintf(what, sizeof what, "after call %d the size so far (%zu) exceeds the capacity (%zu) through a piece written after the refused NULL call, but error_flags=%s, not RANGE", i, counter, cap, verr_name((int)w->error_flags)); ok = false; }
         else if (failed && !nullerr && w->error_flags != BINSON_ERROR_RANGE) { snprintf(sig, sizeof sig, "%s:wrong-error:%s", sigp, verr_name((int)w->error_flags)); snprintf(what, sizeof what, "capacity exceeded but error_flags=%s, expected RANGE", verr_name((int)w->error_flags)); ok = false; }
         if (ok && failed) {
             /* frozen: the stored prefix and the untouched remainder are compared after every later call */
@@ -218,7 +223,7 @@ static void case_lists(vrng *r, bool c09)
     wcall calls[24]; int n = 1 + (int)vrn(r, c09 ? 20 : 14);
     vbuf full; memset(&full, 0, sizeof full);
     bool big = vrn(r, 40) == 0;
-    for (int i = 0; i < n; i++) { random_call(r, &calls[i], c09, big); call_model(&calls[i], &full); }
+    for (int i = 0; i < n; i++) { random_call(r, &calls[i], true, big); call_model(&calls[i], &full); }
     if (vrn(r, 12) == 0) { wcall *l = &calls[n - 1]; call_free(l); full.n = l->enc_off; memset(l, 0, sizeof *l); l->op = vrn(r, 2) ? W_RAW_HUGE : W_BYTES_HUGE; l->i = (int64_t)vrn(r, 100000); call_model(l, &full); vw_count("lists_ending_with_impossible_length", 1); }
     size_t T = full.n;
     if (VA.verbose) { vbuf d; memset(&d, 0, sizeof d); describe_calls(calls, n, &d); fprintf(stderr, "case: %d write calls, exact encoded size %zu: %s\n", n, T, vb_cstr(&d)); vb_free(&d); }
